@@ -8,7 +8,7 @@
 //!            `parsec` parse::result::custom(msg, pos) [.with_cause(m, p)]* .with_source
 //!            `gen`    UnimplementedErr { position, msg, source, path }               (causes ignored)
 //!            `lex`    LexErr: not constructible from outside the crate (`parse::lex` is private);
-//!                     answered only when the harness is built with `--cfg mamba_verif_lexerr` against
+//!                     answered only when the harness is built with `--cfg mamba_verif` against
 //!                     a tree that carries the hook of repo_patches/c19-lexerr-hook.diff
 //!   pos    : `sl,sc,el,ec` (usize each) or `~`
 //!   causes : `-` or `;`-separated `<hex msg>:sl,sc,el,ec`
@@ -56,7 +56,7 @@ fn causes(s: &str) -> Result<Vec<(String, Position)>, String> {
         .collect()
 }
 
-#[cfg(mamba_verif_lexerr)]
+#[cfg(mamba_verif)]
 fn lex(p: &str, msg: &str, source: &Option<String>, path: &Option<PathBuf>, extra: Option<&str>) -> String {
     let n: Vec<usize> = p.split(',').filter_map(|x| x.parse::<usize>().ok()).collect();
     if n.len() < 2 {
@@ -70,7 +70,7 @@ fn lex(p: &str, msg: &str, source: &Option<String>, path: &Option<PathBuf>, extr
     format!("OK\t{}", hex(&text))
 }
 
-#[cfg(not(mamba_verif_lexerr))]
+#[cfg(not(mamba_verif))]
 fn lex(_p: &str, _msg: &str, _source: &Option<String>, _path: &Option<PathBuf>, _extra: Option<&str>) -> String {
     "BAD\tno-lexerr-hook".into()
 }
